@@ -43,6 +43,10 @@ pub struct Config {
     pub weak: bool,
     /// record atomic ops in the log (needed by step-counting oracles)
     pub log_ops: bool,
+    /// how virtual threads leave an aborted case: unwind (in-process cases; nothing is leaked)
+    /// or park forever (fork-per-case: the child `_exit`s; required when `extern "C"` frames
+    /// such as the signal dispatcher may be on the stack)
+    pub abort_unwind: bool,
 }
 
 impl Default for Config {
@@ -53,6 +57,7 @@ impl Default for Config {
             nested: vec![],
             weak: true,
             log_ops: true,
+            abort_unwind: false,
         }
     }
 }
@@ -178,6 +183,8 @@ struct Snap {
 struct Cells {
     /// cell addr -> (vc of last access, tid, depth, kind)
     last: HashMap<usize, (Vc, i32, Event)>,
+    /// cell addr -> (vc, tid) of the last raw access (UnsafeCell::get)
+    access: HashMap<usize, (Vc, i32)>,
 }
 
 struct State {
@@ -215,6 +222,8 @@ pub struct Exec {
     cvs: Vec<Condvar>,
     driver_cv: Condvar,
     nested_fn: Mutex<Option<Arc<dyn Fn(u32) + Send + Sync>>>,
+    aborted_flag: std::sync::atomic::AtomicBool,
+    abort_unwind: bool,
 }
 
 thread_local! {
@@ -229,13 +238,32 @@ fn current() -> Option<Arc<Exec>> {
 }
 
 fn vt() -> Option<(Arc<Exec>, usize)> {
-    VT.try_with(|v| v.borrow().clone()).ok().flatten()
+    let r = VT.try_with(|v| v.borrow().clone()).ok().flatten();
+    match r {
+        // destructors running while a thread unwinds out of an aborted case must not reach
+        // the scheduler again
+        Some((e, _)) if e.aborted_flag.load(Ordering::SeqCst) && std::thread::panicking() => None,
+        r => r,
+    }
 }
 
 fn park_forever() -> ! {
     loop {
         std::thread::park();
     }
+}
+
+/// Payload used to unwind a virtual thread out of an aborted case.
+pub struct AbortToken;
+
+static UNWIND_MODE: std::sync::atomic::AtomicBool = std::sync::atomic::AtomicBool::new(false);
+
+/// Leave an aborted case from inside a hook.
+fn bail() -> ! {
+    if UNWIND_MODE.load(Ordering::SeqCst) && !std::thread::panicking() {
+        std::panic::resume_unwind(Box::new(AbortToken));
+    }
+    park_forever()
 }
 
 struct TheHooks;
@@ -418,6 +446,8 @@ impl Exec {
             })
             .collect();
         let nested_done = vec![false; cfg.nested.len()];
+        UNWIND_MODE.store(cfg.abort_unwind, Ordering::SeqCst);
+        let abort_unwind = cfg.abort_unwind;
         let e = Arc::new(Exec {
             m: Mutex::new(State {
                 cfg,
@@ -451,8 +481,11 @@ impl Exec {
             cvs: (0..MAX_THREADS).map(|_| Condvar::new()).collect(),
             driver_cv: Condvar::new(),
             nested_fn: Mutex::new(None),
+            aborted_flag: std::sync::atomic::AtomicBool::new(false),
+            abort_unwind,
         });
-        *CURRENT.lock().unwrap_or_else(|p| p.into_inner()) = Some(e.clone());
+        let old = CURRENT.lock().unwrap_or_else(|p| p.into_inner()).replace(e.clone());
+        drop(old); // outside the lock: dropping an Exec may run harness destructors that log
         e
     }
 
@@ -470,9 +503,13 @@ impl Exec {
             st.aborted = true;
             st.outcome = Some(outcome);
         }
+        self.aborted_flag.store(true, Ordering::SeqCst);
         self.driver_cv.notify_all();
+        for c in &self.cvs {
+            c.notify_all();
+        }
         drop(st);
-        park_forever()
+        bail()
     }
 
     /// Wait until it is `me`'s turn. Returns the re-acquired state.
@@ -482,7 +519,7 @@ impl Exec {
         }
         if st.aborted {
             drop(st);
-            park_forever();
+            bail();
         }
         st
     }
@@ -491,7 +528,7 @@ impl Exec {
     fn schedule<'a>(&'a self, mut st: MutexGuard<'a, State>, me: usize) -> MutexGuard<'a, State> {
         if st.aborted {
             drop(st);
-            park_forever();
+            bail();
         }
         st.step += 1;
         if st.step > st.cfg.step_bound {
@@ -779,6 +816,25 @@ impl Exec {
         self.point_prologue(me, is_wait);
         let mut st = State::lock(self);
         st.rec(me as i32, Item::Point { kind, a });
+        if kind == Kind::CellAccess {
+            // Unsynchronised memory: every access must happen-after the previous access by
+            // another thread, judged by the declared orderings.
+            let now = st.threads[me].vc;
+            let prev = st.cells.access.get(&a).cloned();
+            st.cells.access.insert(a, (now, me as i32));
+            if let Some((pvc, ptid)) = prev {
+                if ptid != me as i32 && !vc_le(&pvc, &now) {
+                    st.violate(
+                        "C07/race",
+                        format!(
+                            "cell access by thread {} is not ordered after the previous access by thread {}",
+                            me, ptid
+                        ),
+                    );
+                    self.abort_here(st, Outcome::Aborted);
+                }
+            }
+        }
     }
 
     fn do_block_readable(self: &Arc<Self>, me: usize, fd: i32) {
@@ -803,9 +859,12 @@ impl Exec {
 
     fn do_event(self: &Arc<Self>, tid: i32, ev: Event, a: usize, b: usize) {
         let mut st = State::lock(self);
-        if st.aborted && tid >= 0 {
+        if st.aborted {
             drop(st);
-            park_forever();
+            if tid < 0 || std::thread::panicking() {
+                return;
+            }
+            bail();
         }
         st.rec(tid, Item::Event { ev, a, b });
         let depth = if tid >= 0 { st.threads[tid as usize].depth } else { st.driver_depth };
@@ -863,16 +922,8 @@ impl Exec {
                 } else {
                     [0; MAX_THREADS]
                 };
-                if let Some((pvc, ptid, pev)) = st.cells.last.get(&a).cloned() {
-                    if ptid != tid && !vc_le(&pvc, &now) {
-                        bad = Some((
-                            "C07/race",
-                            format!(
-                                "cell access {:?} by thread {} not ordered after {:?} by thread {}",
-                                ev, tid, pev, ptid
-                            ),
-                        ));
-                    } else if pev == ev {
+                if let Some((_pvc, ptid, pev)) = st.cells.last.get(&a).cloned() {
+                    if pev == ev {
                         bad = Some((
                             "C07/cell-protocol",
                             format!(
@@ -912,16 +963,32 @@ impl Exec {
                 .stack_size(512 * 1024)
                 .spawn(move || {
                     VT.with(|v| *v.borrow_mut() = Some((me.clone(), i)));
-                    {
-                        let st = State::lock(&me);
-                        let mut st = me.wait_turn(st, i);
-                        st.threads[i].status = Status::Runnable;
-                    }
-                    let r = std::panic::catch_unwind(std::panic::AssertUnwindSafe(body));
+                    let me2 = me.clone();
+                    let r = std::panic::catch_unwind(std::panic::AssertUnwindSafe(move || {
+                        {
+                            let st = State::lock(&me2);
+                            let mut st = me2.wait_turn(st, i);
+                            st.threads[i].status = Status::Runnable;
+                        }
+                        body()
+                    }));
                     let mut st = State::lock(&me);
-                    if r.is_err() {
+                    if let Err(p) = r {
+                        if p.is::<AbortToken>() {
+                            // left an aborted case
+                            st.threads[i].status = Status::Done;
+                            drop(st);
+                            VT.with(|v| *v.borrow_mut() = None);
+                            return;
+                        }
                         let msg = take_last_panic().unwrap_or_default();
                         st.rec(i as i32, Item::Panic { msg });
+                    }
+                    if st.aborted {
+                        st.threads[i].status = Status::Done;
+                        drop(st);
+                        VT.with(|v| *v.borrow_mut() = None);
+                        return;
                     }
                     st.rec(i as i32, Item::ThreadDone);
                     st.threads[i].status = Status::Done;
@@ -945,8 +1012,12 @@ impl Exec {
                             None => {
                                 let b = st.blocked_set();
                                 st.aborted = true;
+                                me.aborted_flag.store(true, Ordering::SeqCst);
                                 st.outcome = Some(Outcome::Deadlock(b));
                                 me.driver_cv.notify_all();
+                                for c in &me.cvs {
+                                    c.notify_all();
+                                }
                             }
                         }
                     }
@@ -968,7 +1039,7 @@ impl Exec {
             }
         }
         let completed = { State::lock(self).finished };
-        if completed {
+        if completed || self.abort_unwind {
             for h in handles {
                 let _ = h.join();
             }
@@ -978,14 +1049,18 @@ impl Exec {
 
     /// Finish: detach from the global slot and return what was recorded.
     pub fn finish(self: &Arc<Self>) -> RunResult {
-        {
+        let old = {
             let mut c = CURRENT.lock().unwrap_or_else(|p| p.into_inner());
-            if let Some(cur) = c.as_ref() {
-                if Arc::ptr_eq(cur, self) {
-                    *c = None;
-                }
+            if c.as_ref().map_or(false, |cur| Arc::ptr_eq(cur, self)) {
+                c.take()
+            } else {
+                None
             }
-        }
+        };
+        drop(old);
+        // break the reference cycle Exec -> nested_fn -> harness objects
+        let f = self.nested_fn.lock().unwrap_or_else(|p| p.into_inner()).take();
+        drop(f);
         let mut st = State::lock(self);
         RunResult {
             outcome: st.outcome.clone().unwrap_or(Outcome::Completed),
@@ -1223,5 +1298,12 @@ pub fn violate(key: &str, msg: String) {
                 State::lock(&e).violate(key, msg)
             }
         }
+    }
+}
+
+/// Record a panic caught on the driver thread.
+pub fn driver_panic(msg: String) {
+    if let Some(e) = current() {
+        State::lock(&e).rec(-1, Item::Panic { msg });
     }
 }
